@@ -14,6 +14,8 @@ pub struct Alphabet {
     pub del: bool,
     /// weak deletes under the single-delete discipline (puts are then also disciplined)
     pub wdel_discipline: bool,
+    /// with `wdel_discipline`: the weak delete may also arrive through a one-entry ingestion
+    pub wdel_ingest: bool,
     pub batch: bool,
     /// every write is flushed into its own table (PutF / DelF)
     pub put_f: bool,
@@ -115,7 +117,12 @@ pub fn enabled_from(a: &Alphabet, d: &Driver, hist: &[Op]) -> Vec<Op> {
                 .max_by_key(|w| w.seqno);
             match last.map(|w| w.kind) {
                 None | Some(Kind::WDel) => out.push(Op::Put { k, big: false }),
-                Some(Kind::Put) => out.push(Op::WDel { k }),
+                Some(Kind::Put) => {
+                    out.push(Op::WDel { k });
+                    if a.wdel_ingest {
+                        out.push(Op::Ingest { items: vec![(k, crate::ops::IKind::WeakTomb)] });
+                    }
+                }
                 Some(Kind::Del) => {}
             }
         }
